@@ -35,7 +35,9 @@ TRUSTED = ["lean/Tahoe/Base/Merkle.lean is a hand transcription of hashtree.py (
 ASSUMPTIONS = ["pair_hash (SHA-256d tagged pair hash, each input netstring-framed) is injective on byte strings of ANY length — "
                "hypothesis PairInjective of the soundness theorem; the harness feeds re-splits of (left || right) at every "
                "boundary, prefixes and extensions of genuine values, after the genuine tree was hashed in the same process",
-               "indices passed to set_hashes are non-negative ints (callers: enumerate, struct '>H', needed_hashes)"]
+               "keys of hashes/leaves are Python ints of any sign and size (negative keys alias list slots; modelled by "
+               "setHashesZ, whose exception class for a red-dotted negative key is left open between IndexError / "
+               "BadHashError / NotEnoughHashesError — the harness maps those three to `reject` for such batches)"]
 
 # Which behaviour the Lean model is run with: "fixed" = with fixes/C35-falsy-hash-and-indexerror.diff applied
 # (`if self[i] is not None:` twice, IndexError also rolls back); "asis" = /repo's code as it is.
@@ -148,7 +150,9 @@ class PopSet(set):
             if x in self:
                 self.remove(x)
                 return x
-        return set.pop(self)
+        x = min(self)          # keys outside the priority list (negative stray keys): deterministic
+        self.remove(x)
+        return x
 
 
 class pop_order:
@@ -191,8 +195,9 @@ def do_call(tree, call):
     with pop_order(call["prio"]):
         try:
             tree.set_hashes(hashes, leaves)
-        except Exception as e:  # noqa
+        except Exception as e:  # noqa  (whatever its type: the monitor wants the tree unchanged after ANY exception)
             exc = e
+    do_call.last_exception = type(exc).__name__ if exc is not None else None
     return classify(exc)
 
 
@@ -225,41 +230,60 @@ def violation_signature(kind, before, call, outcome, first, history_flags):
     return kind
 
 
+def resolve_slot(i, size):
+    """the list slot Python's self[i] touches (negative indices alias), or None when it raises IndexError"""
+    if 0 <= i < size:
+        return i
+    if -size <= i < 0:
+        return size + i
+    return None
+
+
 def exec_history(ctx, case, monitor=True):
     """Run case = {n, T:[leaf terms], calls:[{prio,hashes,leaves}]} on a real IncompleteHashTree.
     Returns the canonical output string (same format as the driver).  The monitor evaluates the property
-    statement against the genuine tree HashTree(T)."""
+    statement against the genuine tree HashTree(T):
+      * after ANY exception from set_hashes the list is identical to the list before the call;
+      * on a tree seeded with the genuine root, an accepted call stores no leaf value different from the
+        genuine leaf;
+      * the genuine hashes the tree asks for (+ the genuine leaf) are accepted.
+    `good` is the state the tree must be in according to the statement (the list after the last legitimately
+    accepted call); after a rejected batch that left something behind the later calls are still judged against
+    it, so a forged leaf accepted / a genuine leaf refused *because of* the leftovers is reported as such."""
     from allmydata import hashtree
     tm = terms()
     n = case["n"]
     tree = hashtree.IncompleteHashTree(n)
     first = tree.first_leaf_num
+    size = len(tree)
     T = hashtree.HashTree([tm.bytes_of(t) for t in case["T"]]) if case.get("T") is not None else None
     if T is not None:
         tm.show_tree(list(T))    # registers every node of the genuine tree
     outs = []
     flags = {}
     stop_monitor = not monitor or T is None or len(T) != len(tree)
+    good = list(tree)
+    dirty = False
     for ci, call in enumerate(case["calls"]):
         before = list(tree)
-        # "genuine request": exactly the hashes the tree asks for, all genuine, plus the genuine leaf
+        # "genuine request": exactly the hashes the (good) tree asks for, all genuine, plus the genuine leaf
         genuine_request = False
         if not stop_monitor and len(call["leaves"]) == 1:
             k = call["leaves"][0][0]
-            if 0 <= first + k < len(tree):
-                try:
-                    needed = tree.needed_hashes(k)
-                except Exception:
-                    needed = None
-                if needed is not None and set(i for (i, _) in call["hashes"]) == needed:
+            if k >= 0 and first + k < size:
+                needed = set(i for i in path_needed(first + k) if good[i] is None)
+                if set(i for (i, _) in call["hashes"]) == needed:
                     hs = {i: tm.bytes_of(t) for (i, t) in call["hashes"]}
                     genuine_request = all(hs[i] == T[i] for i in hs) and tm.bytes_of(call["leaves"][0][1]) == T[first + k]
-        seeded = before[0] is not None and T is not None and before[0] == T[0]
-        agrees = T is not None and len(T) == len(before) and all(v is None or v == T[i] for i, v in enumerate(before))
+        seeded = good[0] is not None and T is not None and good[0] == T[0]
+        agrees = T is not None and len(T) == size and all(v is None or v == T[i] for i, v in enumerate(good))
         outcome = do_call(tree, call)
+        excname = do_call.last_exception
         after = list(tree)
         outs.append(outcome + ":" + tm.show_tree(after))
         ctx.count("outcome:" + outcome)
+        if excname:
+            ctx.count("exception:" + excname)
         nontrivial = n >= 2 and (call["hashes"] or call["leaves"])
         ctx.case((n, tm.show_tree(before), repr(call)) if nontrivial else None)
         if outcome == "index" and after != before:
@@ -267,30 +291,41 @@ def exec_history(ctx, case, monitor=True):
         if stop_monitor:
             continue
         info = {"n": n, "T": case["T"], "calls": case["calls"][:ci + 1]}
-        # (1) tree unchanged on rejection
-        if outcome != "ok" and after != before:
-            sig = violation_signature("rollback", before, call, outcome, first, flags)
-            ctx.violation("set_hashes raised %s but the tree changed (index %s)" % (
-                outcome, [i for i in range(len(after)) if after[i] != before[i]][:4]), info, sig,
-                {"before": tm.show_tree(before), "after": tm.show_tree(after)})
-            stop_monitor = True
+        # (1) tree unchanged after a rejected batch, whatever the exception
+        if outcome != "ok":
+            if after != before:
+                ctx.violation("set_hashes raised %s but the tree changed (index %s)" % (
+                    excname, [i for i in range(size) if after[i] != before[i]][:4]), info,
+                    "tree-changed-after-rejected-batch:%s" % excname,
+                    {"before": tm.show_tree(before), "after": tm.show_tree(after)})
+                dirty = True
+            elif genuine_request and seeded and agrees:
+                # (3) the genuine hashes it asked for are accepted
+                sig = "genuine-leaf-refused-after-rejected-batch" if dirty else \
+                    violation_signature("complete", before, call, outcome, first, flags)
+                ctx.violation("set_hashes rejected (%s) the genuine hashes it asked for" % excname, info, sig,
+                              {"before": tm.show_tree(before)})
+                if not dirty:
+                    stop_monitor = True
             continue
         # (2) an accepted leaf is genuine (tree seeded with the trusted root)
-        if outcome == "ok" and seeded:
-            forged = [i for i in range(first, len(after)) if after[i] is not None and after[i] != T[i]]
+        violated = False
+        if seeded:
+            supplied = [(resolve_slot(i, size), tm.bytes_of(t)) for (i, t) in call["hashes"]] + \
+                       [(resolve_slot(first + k, size), tm.bytes_of(t)) for (k, t) in call["leaves"]]
+            forged = sorted(set(j for (j, v) in supplied if j is not None and j >= first and v != T[j]))
+            if not dirty:
+                forged = sorted(set(forged) | set(i for i in range(first, size) if after[i] is not None and after[i] != T[i]))
             if forged:
-                sig = violation_signature("sound", before, call, outcome, first, flags)
+                violated = True
+                sig = "forged-leaf-accepted-after-rejected-batch" if dirty else \
+                    violation_signature("sound", before, call, outcome, first, flags)
                 ctx.violation("set_hashes accepted a leaf value different from the genuine leaf (leaf %s)" % (
                     [i - first for i in forged][:4]), info, sig, {"before": tm.show_tree(before), "after": tm.show_tree(after)})
-                stop_monitor = True
-                continue
-        # (3) the genuine hashes it asked for are accepted
-        if genuine_request and seeded and agrees and outcome != "ok":
-            sig = violation_signature("complete", before, call, outcome, first, flags)
-            ctx.violation("set_hashes rejected (%s) the genuine hashes it asked for" % outcome, info, sig,
-                          {"before": tm.show_tree(before)})
-            stop_monitor = True
-            continue
+                if not dirty:
+                    stop_monitor = True
+        if not violated:
+            good = after
         if genuine_request:
             ctx.count("genuine-requests")
     return ";".join(outs) if outs else "-"
@@ -427,6 +462,72 @@ def odd_length_cases(rng, max_n, boundaries, norders):
                                                                "leaves": leaves}]}
 
 
+def stray_cases(rng, max_n, nperm):
+    """adversarial batches with stray node numbers — negative (-1 … -2*size, Python list indexing aliases
+    -size ≤ i < 0 onto real slots), ≥ tree size, nodes off the chain — in `hashes` and in `leaves`, in every
+    dict ORDER relative to the forged / genuine entries (all permutations of up to 4 entries, else `nperm`
+    seeded ones incl. stray first / last).  Each batch is followed by the forged leaf on its own (must be
+    refused) and by the genuine request for that leaf (must be accepted)."""
+    for n in range(2, max_n + 1):
+        T = ["a%d" % i for i in range(n)]
+        gen = genuine_terms(T)
+        size = len(gen)
+        first = (size + 1) // 2 - 1
+        full = list(range(size))
+        seed_call = {"prio": full, "hashes": [(0, gen[0])], "leaves": []}
+        for k in range(n):
+            idx = first + k
+            sib = sibling_of(idx)
+            need = path_needed(idx)
+            forged = "a%d" % (FORGE + idx)
+            forged_sib = "a%d" % (FORGE + sib)
+            offchain = [i for i in range(1, size) if i not in need and i != idx]
+            stray_keys = [-1, -2, -size + 1, -size, -size - 1, -2 * size, size, size + 1]
+            stray_keys += [-(size - idx)]               # aliases the leaf itself
+            if offchain:
+                stray_keys += [offchain[0], offchain[-1]]
+            stray_keys = sorted(set(stray_keys))
+            bases = [
+                ("forged-leaf", [("h", idx, forged)]),
+                ("forged-pair", [("h", idx, forged), ("h", sib, forged_sib)]),
+                ("forged-leaf-in-leaves", [("l", k, forged)]),
+                ("genuine-chain", [("h", i, gen[i]) for i in need] + [("l", k, gen[idx])]),
+            ]
+            follow = [{"prio": full, "hashes": [], "leaves": [(k, forged)]},
+                      {"prio": full, "hashes": [(i, gen[i]) for i in need], "leaves": [(k, gen[idx])]}]
+            for bname, base in bases:
+                for sk in stray_keys:
+                    slot = resolve_slot(sk, size)
+                    values = ["a%d" % (FORGE + 300 + (sk % 97))]
+                    if slot is not None:
+                        values.append(gen[slot])      # the genuine value of the aliased / off-chain slot
+                    for sv in values:
+                        variants = [base + [("h", sk, sv)]]
+                        lk = sk - first                # the same node number through `leaves`
+                        if not any(e[0] == "l" and e[1] == lk for e in base):
+                            variants.append(base + [("l", lk, sv)])
+                        for entries in variants:
+                            if len(entries) <= 4:
+                                perms = list(itertools.permutations(entries))
+                            else:
+                                perms = [tuple(entries), tuple(entries[-1:] + entries[:-1])]
+                                for _ in range(nperm):
+                                    e = entries[:]
+                                    rng.shuffle(e)
+                                    perms.append(tuple(e))
+                            seen = set()
+                            for perm in perms:
+                                hashes = [(i, t) for (w, i, t) in perm if w == "h"]
+                                leaves = [(i, t) for (w, i, t) in perm if w == "l"]
+                                key = (tuple(hashes), tuple(leaves))
+                                if key in seen or len(set(i for i, _ in hashes)) != len(hashes) \
+                                        or len(set(i for i, _ in leaves)) != len(leaves):
+                                    continue
+                                seen.add(key)
+                                prio = full if rng.random() < 0.5 else full[::-1]
+                                yield {"n": n, "T": T, "calls": [seed_call, {"prio": prio, "hashes": hashes, "leaves": leaves}] + follow}
+
+
 def exhaustive_cases(rng, max_n, with_prior, norders):
     """every leaf, every genuine/forged/missing/empty-string choice for each needed hash and the leaf, on a tree
     seeded with the genuine root, optionally after a genuine validation of another leaf."""
@@ -515,9 +616,13 @@ def random_history(rng, max_leaves, ncalls):
             # extra, unrequested hashes: already-known nodes (genuine or forged), unrelated nodes, out of range
             for _ in range(rng.randrange(0, 3)):
                 r2 = rng.random()
-                if r2 < 0.15:
+                if r2 < 0.12:
                     i = size + rng.randrange(0, 3)
                     t = "a%d" % (FORGE + 500 + i)
+                elif r2 < 0.3:
+                    i = -rng.choice([1, 2, 3, size - 1, size, size + 1, 2 * size, rng.randrange(1, size + 1)])
+                    slot = resolve_slot(i, size)
+                    t = gen[slot] if slot is not None and rng.random() < 0.4 else "a%d" % (FORGE + 600 + (-i) % 89)
                 else:
                     i = rng.randrange(size)
                     t = choice_term(rng.choice("ggfz" + ODD), gen, i)
@@ -531,8 +636,11 @@ def random_history(rng, max_leaves, ncalls):
         elif r3 < 0.9:
             leaves.append((k, choice_term(rng.choice("fz" + ODD), gen, idx)))
         if style > 0.8 and rng.random() < 0.3:
-            k2 = rng.randrange(n + 2)          # second leaf, may be out of range
-            if k2 != k:
+            k2 = rng.randrange(n + 2) if rng.random() < 0.6 else -rng.randrange(1, size + 3)   # may be out of range / negative
+            if k2 != k and k2 < 0:
+                slot = resolve_slot(first + k2, size)
+                leaves.append((k2, gen[slot] if slot is not None and rng.random() < 0.4 else "a%d" % (FORGE + 800 + (-k2) % 89)))
+            elif k2 != k:
                 leaves.append((k2, gen[first + k2] if first + k2 < size and rng.random() < 0.6 else "a%d" % (FORGE + 700 + k2)))
         if style > 0.9 and rng.random() < 0.3 and leaves:
             # the same node through both arguments (conflicting or equal)
@@ -664,9 +772,31 @@ def untuple(case):
                        "leaves": [tuple(x) for x in c["leaves"]]} for c in case["calls"]]}
 
 
+def canonicalise(impl_out, model_out):
+    """Where the model leaves the exception class open (`reject`: a red-dotted negative key — IndexError, or the
+    BadHashError / NotEnoughHashesError of another node of the deepest level, whichever set.pop() meets first),
+    any of those three classes of the implementation is mapped to `reject`; the list contents are compared as is."""
+    if model_out is None or "reject:" not in model_out:
+        return impl_out
+    a, b = impl_out.split(";"), model_out.split(";")
+    if len(a) != len(b):
+        return impl_out
+    res = []
+    for x, y in zip(a, b):
+        if y.startswith("reject:"):
+            cls, _, tree = x.partition(":")
+            if cls in ("bad", "notenough", "index"):
+                x = "reject:" + tree
+        res.append(x)
+    return ";".join(res)
+
+
 def run_batch(ctx, what, cases):
     impl = [exec_history(ctx, c) for c in cases]
     model = ctx.model([line_of(c) for c in cases])
+    if model is not None:
+        impl = [canonicalise(a, b) for a, b in zip(impl, model)]
+        ctx.count("model-outcome:reject(red-dotted negative key)", sum(m.count("reject:") for m in model))
     ctx.compare(what, cases, impl, model)
     return impl
 
@@ -702,6 +832,14 @@ def run(ctx):
     for i in range(0, len(odd), 4000):
         run_batch(ctx, "set_hashes history (re-split / odd-length adversarial values)", odd[i:i + 4000])
     ctx.count("odd-length-histories", len(odd))
+    # 2c. stray node numbers (negative, too large, off-chain) in every dict order, then forged / genuine follow-ups
+    stray = list(stray_cases(ctx.subrng("stray"), 8 if thorough else (5 if ctx.escalated else 4), 4 if thorough else 2))
+    if not thorough and not ctx.escalated and len(stray) > 3000:
+        keep = ctx.subrng("stray-sample")
+        stray = stray[:600] + keep.sample(stray[600:], 2400)
+    for i in range(0, len(stray), 4000):
+        run_batch(ctx, "set_hashes history (stray node numbers in every dict order)", stray[i:i + 4000])
+    ctx.count("stray-index-histories", len(stray))
     if thorough:
         ctx.exhaustive = True
         ctx.note("exhaustive: 1..8 leaves, every leaf, every genuine/forged/missing/empty choice of each needed hash and of the leaf, "
